@@ -316,3 +316,251 @@ def digest(items):
 def new_items(items, old_hashes):
     old = set(old_hashes or [])
     return sorted(i for i in items if hashlib.sha1(i.encode()).hexdigest()[:10] not in old)
+
+
+# ------------------------------------------------------------------ canonical (rename / let-hoisting invariant) trees
+COMMUTE = {'Add', 'Mul', 'BitAnd', 'BitOr', 'BitXor', 'Eq', 'Ne', 'AddWithOverflow', 'MulWithOverflow'}
+FLIP = {'Gt': 'Lt', 'Ge': 'Le'}
+
+
+def _clean(s):
+    s = re.sub(r'\{(closure|coroutine)#\d+\}', r'{\1}', s)
+    s = re.sub(r'\{(closure|coroutine|async \w+)@[^}]*\}', r'{\1}', s)
+    return re.sub(r'\b_\d+\b', '_', s)
+
+
+class CTree:
+    """canonical form of expression trees of one function: every single-definition local (named or not) is replaced
+    by its definition, so renaming a variable, hoisting a sub-expression into a `let` or re-ordering independent
+    statements changes nothing; locals with several definitions become `<type>` leaves and are remembered in
+    `self.multi` so that their definitions can be added to a slice; arguments are positional; the operands of
+    commutative operators are sorted and `a > b` is written `b < a`."""
+
+    def __init__(self, fn):
+        self.fn = fn
+        self.multi = set()
+
+    def leaf_ty(self, l):
+        t = self.fn.local_ty(l) or '?'
+        return _clean(t)
+
+    def tree(self, t, depth=0):
+        fn = self.fn
+        if not isinstance(t, tuple) or not t:
+            return t
+        h = t[0]
+        if h == 'var':
+            l = t[2]
+            if isinstance(l, int):
+                if 0 < l <= fn.argc:
+                    return ('arg', l)
+                e = fn.expand(t) if depth < 40 else t
+                if e is not t and e != t:
+                    return self.tree(e, depth + 1)
+                self.multi.add(l)
+                return ('mvar', self.leaf_ty(l))
+            return ('mvar', '?')
+        if h in ('int', 'str', 'item', 'fnref', 'float', 'const', 'arg', 'bytes'):
+            return t
+        if h == 'call' or h == 'closure':
+            return tuple([h, _clean(str(t[1]))] + [self.tree(x, depth) if isinstance(x, tuple) else x for x in t[2:]])
+        kids = [self.tree(x, depth) if isinstance(x, tuple) else x for x in t[1:]]
+        if h == 'bin' and len(kids) == 3:
+            op, a, b = kids
+            if op in FLIP:
+                op, a, b = FLIP[op], b, a
+            if op in COMMUTE and show(a) > show(b):
+                a, b = b, a
+            return ('bin', op, a, b)
+        return tuple([h] + kids)
+
+    def text(self, t):
+        return _clean(show(self.tree(t)))
+
+
+def canon_site_key(fn, kind, trees):
+    ct = CTree(fn)
+    txt = ' ; '.join(ct.text(fn.expand(t)) for t in trees)
+    return '%s|%s|%s' % (_clean(fn.qual), kind, hashlib.sha1(txt.encode()).hexdigest()[:14])
+
+
+def _multi_defs(fn, ct, items, prefix=''):
+    """definitions of the locals with several definitions met so far (transitively), as canonical trees"""
+    writers = _alias_writers(fn)
+    done = set()
+    while True:
+        todo = ct.multi - done
+        if not todo:
+            break
+        for l in sorted(todo):
+            done.add(l)
+            ty = ct.leaf_ty(l)
+            for d in fn.defs.get(l, []):
+                if d['kind'] == 'arg':
+                    continue
+                if d['kind'] == 'assign':
+                    if is_log_term(d['st']) or ty == '()':
+                        continue
+                    items.add('%sdef <%s> = %s' % (prefix, ty, ct.text(fn.rvalue_tree(d['rv']))))
+                elif d['kind'] == 'call':
+                    if is_log_term(d['term']):
+                        continue
+                    items.add('%sdef <%s> = %s' % (prefix, ty, ct.text(fn.call_tree(d['term']))))
+                elif d['kind'] == 'part':
+                    st = d.get('st')
+                    if st is not None and st['k'] == 'assign':
+                        items.add('%spart <%s>%s = %s' % (prefix, ty, _clean(show(fn.place_tree(st['lhs'])).split('.', 1)[-1] if '.' in show(fn.place_tree(st['lhs'])) else ''), ct.text(fn.rvalue_tree(st['rv']))))
+                    elif d.get('term') is not None:
+                        items.add('%spart-call <%s> %s' % (prefix, ty, ct.text(fn.call_tree(d['term']))))
+            container = re.match(r'^(&mut )?(std::vec::Vec|std::collections::|std::string::String|std::vec::IntoIter|std::slice::Iter)', ty) is not None
+            for t in writers.get(l, []):
+                if is_log_term(t):
+                    continue
+                if container:
+                    # which operations change the container, not what values they carry: a site that reads an element
+                    # rests on its own guards (or on a backing rule for the container's contents), and must not go stale
+                    # whenever some other arm pushes a differently spelled value
+                    items.add('%svia-&mut <%s>: %s' % (prefix, ty, _clean(strip_generics(t.get('fn') or '?'))))
+                else:
+                    items.add('%svia-&mut <%s>: %s' % (prefix, ty, ct.text(fn.call_tree(t))))
+
+
+def _switch_domain(fn, t):
+    """all values the switched operand can take, when known: bool, or the discriminants of the enum it was read from"""
+    if t.get('ty') == 'bool':
+        return {0, 1}
+    x = t['x']
+    p = x.get('m') or x.get('c')
+    if p is None or p.get('p'):
+        return None
+    sd = fn.single_def(p['l'])
+    if sd is not None and sd['kind'] == 'assign' and sd['rv']['k'] == 'discr' and sd['rv'].get('dv') is not None:
+        return set(sd['rv']['dv'])
+    return None
+
+
+def canon_guards(fn, bb, ct, items, prefix='', within=None):
+    """the branch decisions under which block bb executes, as `cond in {values}`: the values are concrete whenever the
+    switched operand's domain is known, so `if let Some(x) = o {A} else {B}` and `match o { Some(x) => A, None => B }`
+    give the same guards"""
+    for d in fn.dom_chain(bb):
+        if d == bb or (within is not None and d not in within):
+            continue
+        t = fn.blocks[d]['t']
+        if t['k'] != 'switch' or is_log_term(t):
+            continue
+        explicit = [(v, tgt) for v, tgt in t['ts']]
+        else_live = not (fn.blocks[t['o']]['t']['k'] == 'unreachable' and not [x for x in fn.blocks[t['o']]['s'] if x['k'] == 'assign'])
+
+        def reaches(tgt):
+            return tgt == bb or bb in fn.reachable_from(tgt, avoid=(d,))
+        reach_vals = set(v for v, tgt in explicit if reaches(tgt))
+        else_reaches = else_live and reaches(t['o'])
+        dom = _switch_domain(fn, t)
+        n_out = len(explicit) + (1 if else_live else 0)
+        n_reach = len(reach_vals) + (1 if else_reaches else 0)
+        if n_reach == n_out:
+            continue
+        if dom is not None:
+            vals = set(reach_vals)
+            if else_reaches:
+                vals |= (dom - set(v for v, _ in explicit))
+            lab = '{' + ','.join(str(v) for v in sorted(vals)) + '}'
+        else:
+            lab = ','.join(sorted(str(v) for v in reach_vals)) + (',else' if else_reaches else '')
+        items.add('%sguard %s in %s' % (prefix, ct.text(fn.operand_tree(t['x']))[:700], lab))
+
+
+def effect_summary(fn):
+    """name-free summary of a function body: its calls and returns as canonical trees"""
+    ct = CTree(fn)
+    items = set()
+    for b in fn.reach:
+        t = fn.blocks[b]['t']
+        if t['k'] == 'call' and not is_log_term(t):
+            items.add('call ' + ct.text(fn.call_tree(t)))
+        for s in fn.blocks[b]['s']:
+            if s['k'] == 'assign' and s['lhs']['l'] == 0 and not s['lhs'].get('p'):
+                items.add('ret ' + ct.text(fn.rvalue_tree(s['rv'])))
+    _multi_defs(fn, ct, items)
+    return hashlib.sha1('\n'.join(sorted(items)).encode()).hexdigest()[:12]
+
+
+def canon_closure_context(fn, crate, items, depth=0):
+    par = _parent(fn, crate)
+    if par is None or depth > 3:
+        return
+    pre = 'parent%d: ' % depth
+    ct = CTree(par)
+    for b in sorted(par.reach):
+        for s in par.blocks[b]['s']:
+            if s['k'] == 'assign' and s['rv']['k'] == 'agg' and s['rv'].get('ak') in ('closure', 'coroutine', 'coroutine_closure') and s['rv'].get('def') == fn.qual:
+                items.add(pre + 'captures ' + ' , '.join(ct.text(par.operand_tree(x)) for x in s['rv'].get('xs', [])))
+                canon_guards(par, b, ct, items, pre)
+                holder = s['lhs']['l']
+                for b2 in sorted(par.reach):
+                    t = par.blocks[b2]['t']
+                    if t['k'] != 'call':
+                        continue
+                    for a in t.get('args', []):
+                        p = a.get('m') or a.get('c')
+                        if p and p['l'] == holder and not p.get('p'):
+                            tree = par.expand(par.call_tree(t))
+                            items.add(pre + 'driven-by ' + ct.text(tree)[:1500])
+                            for x in walk(tree):
+                                if isinstance(x, tuple) and x and x[0] == 'closure' and x[1] != fn.qual:
+                                    sib = crate.fn(x[1])
+                                    if sib is not None:
+                                        items.add(pre + 'sibling body ' + effect_summary(sib))
+    _multi_defs(par, ct, items, pre)
+    canon_closure_context(par, crate, items, depth + 1)
+
+
+def canon_site_items(fn, crate, site_trees, kind, bb):
+    items = set()
+    ct = CTree(fn)
+    items.add('site %s %s' % (kind, ' ; '.join(ct.text(t) for t in site_trees)))
+    canon_guards(fn, bb, ct, items)
+    _multi_defs(fn, ct, items)
+    canon_closure_context(fn, crate, items)
+    return items
+
+
+def canon_loop_items(fn, crate, blocks):
+    """the loop body as a set of canonical effects, each tagged with the (canonical) branch decisions inside the loop
+    it executes under: calls, stores to locals with several definitions, stores through places, branch conditions"""
+    items = set()
+    ct = CTree(fn)
+    within = set(blocks)
+    for b in blocks:
+        tmp = set()
+        canon_guards(fn, b, ct, tmp, within=within)
+        sig = hashlib.sha1('|'.join(sorted(tmp)).encode()).hexdigest()[:8]
+        for s in fn.blocks[b]['s']:
+            if s['k'] != 'assign' or is_log_term(s):
+                continue
+            lhs = s['lhs']
+            multi = len([d for d in fn.defs.get(lhs['l'], []) if d['kind'] in ('assign', 'call')]) > 1
+            if (fn.local_ty(lhs['l']) or '') == '()' and not lhs.get('p'):
+                continue   # unit values of statement-position matches / blocks carry nothing
+            if lhs.get('p') or multi or lhs['l'] == 0:
+                items.add('%s store <%s>%s = %s' % (sig, ct.leaf_ty(lhs['l']), '.' + '.'.join(str(e.get('n', e.get('f', '?'))) if isinstance(e, dict) else str(e) for e in (lhs.get('p') or [])) if lhs.get('p') else '', ct.text(fn.rvalue_tree(s['rv']))))
+                ct.multi.add(lhs['l'])
+        t = fn.blocks[b]['t']
+        if is_log_term(t):
+            continue
+        if t['k'] == 'call':
+            items.add('%s call %s' % (sig, ct.text(fn.call_tree(t))))
+        elif t['k'] == 'switch':
+            items.add('%s branch %s' % (sig, ct.text(fn.operand_tree(t['x']))[:500]))
+        elif t['k'] in ('return', 'yield'):
+            items.add('%s %s' % (sig, t['k']))
+    _multi_defs(fn, ct, items, 'in: ')
+    canon_closure_context(fn, crate, items)
+    return items
+
+
+def canon_loop_key(fn, exits):
+    ct = CTree(fn)
+    conds = sorted(ct.text(c) for _, c in exits)
+    return '%s|loop|%s' % (_clean(fn.qual), hashlib.sha1(' ; '.join(conds).encode()).hexdigest()[:14])
